@@ -995,6 +995,20 @@ Proof.
 Qed.
 
 (* all scenarios of a generated file *)
+Lemma own_check_all_In scs name p : own_check_all scs = true -> In (name, p) scs -> own_check p = true.
+Proof.
+  unfold own_check_all. intros H Hin. rewrite forallb_forall in H. apply (H _ Hin).
+Qed.
+
+Theorem own_entitled_all scs :
+  own_check_all scs = true ->
+  forall name p, In (name, p) scs ->
+  forall c, reachable p c ->
+  forall i t o, nth_error (threads c) i = Some t -> about_to_access t (heap c) o -> may_access p c i o.
+Proof.
+  intros H name p Hin. apply own_sound. eapply own_check_all_In; eauto.
+Qed.
+
 Theorem own_sound_all scs :
   own_check_all scs = true ->
   forall name p, In (name, p) scs ->
